@@ -56,25 +56,9 @@ def distOf (s : Sys) : Dist := Dist.zero.record (delivered s)
 /-- the samples still in the bucket, reachable from the tail: what the next drain pass will fold in -/
 def pendingOf (s : Sys) : Dist := Dist.zero.record (visible s)
 
-/-- one scheduler grant: one model step, except that the CAS of `clear_with` follows its tail load without a yield
-    point in the source — both happen in the grant of `bkt.clear.load_tail` -/
-def grant (s : Sys) (tid : Nat) : Sys :=
-  let s1 := step s tid
-  match s1.threads[tid]? with
-  | some t => (match t.pc with | .cCas _ => step s1 tid | _ => s1)
-  | none => s1
-
-/-- the schedule of single steps that a schedule of grants stands for -/
-def fineSched (s : Sys) : List Nat → List Nat
-  | [] => []
-  | tid :: r =>
-    let s1 := step s tid
-    match s1.threads[tid]? with
-    | some t =>
-      (match t.pc with
-       | .cCas _ => tid :: tid :: fineSched (step s1 tid) r
-       | _ => tid :: fineSched s1 r)
-    | none => tid :: fineSched s1 r
+/-- one scheduler grant = exactly one model step: every PC of the bucket machine is a yield point of bucket.rs (the
+    detaching CAS of `clear_with` is the point `bkt.clear.cas`, between the tail load and the CAS) -/
+def grant (s : Sys) (tid : Nat) : Sys := step s tid
 
 /-- the steps of a thread that runs `n` pushes alone from its start (the prefill the harness does before the scheduled
     threads start): at most 6 steps per push (`start`, tail load, first-block CAS or hand-over CAS, claim, publish, and
